@@ -13,7 +13,9 @@ import (
 
 func checkSupport(codecs []string) bool {
 	for _, codec := range codecs {
-		if !strings.HasPrefix(codec, "avc1.") &&
+		if !strings.HasPrefix(codec, "av01.") &&
+			!strings.HasPrefix(codec, "vp09.") &&
+			!strings.HasPrefix(codec, "avc1.") &&
 			!strings.HasPrefix(codec, "hvc1.") &&
 			!strings.HasPrefix(codec, "hev1.") &&
 			!strings.HasPrefix(codec, "mp4a.") &&
